@@ -311,6 +311,23 @@ func (g *gen) call(rc Recv, m int) Op {
 			}
 		}
 	}
+	if (m == 0 || m == 5 || m == 6 || m == 8 || m == 9) && r.Intn(8) == 0 {
+		lo := 0
+		if m == 8 || m == 9 {
+			lo = 1
+		}
+		hi := len(op.args)
+		if m == 6 && hi > 2 {
+			hi = 2
+		}
+		if m == 0 && hi > 1 {
+			hi = 1
+		}
+		if hi > lo {
+			i := lo + r.Intn(hi-lo)
+			op.args[i] = Arg{kind: 'o', oid: 1 + i, op: r.Intn(int(n)+3) - 1, othrow: r.Intn(4) == 0}
+		}
+	}
 	g.extras(&op, rc)
 	return op
 }
@@ -749,8 +766,8 @@ func (g *gen) locCase() {
 	g.runLoc(rc, [3]int{r.Intn(3), r.Intn(3), r.Intn(3)}, r.Intn(5) == 0, "locale-string")
 }
 
-// ---------- pinned witnesses (run first on every run): all eleven findings are repaired in /repo;
-// these are regression cases that expect the ES5 result ----------
+// ---------- pinned witnesses (run first on every run): findings 1-13 are repaired in /repo and are
+// regression cases that expect the ES5 result; 14 and 15 are open ----------
 
 func nums(xs ...float64) []*V {
 	a := make([]*V, len(xs))
@@ -783,6 +800,26 @@ func (g *gen) families() {
 		}
 		g.runHist(Recv{prim: vp(pv)}, []Op{{kind: 'c', m: 0}, {kind: 'c', m: 8, args: []Arg{av(vStr("b"))}}, {kind: 'c', m: 9, args: []Arg{av(vStr("a"))}},
 			{kind: 'c', m: 5, args: []Arg{av(vNum(1))}}, {kind: 'c', m: 19}}, "family-primitive")
+	}
+	// (6) WHEN each method converts its arguments: objects whose valueOf/toString logs or throws, at every converting
+	//     position, on empty and non-empty arrays and array-likes (e.g. indexOf/lastIndexOf: not at all when len is 0)
+	ao := func(id, p int, t bool) Arg { return Arg{kind: 'o', oid: id, op: p, othrow: t} }
+	for _, rc := range []Recv{{arr: true}, {arr: true, elems: nums(1, 2, 1)}, {length: vp(vNum(0))}, {elems: nums(1, 2), length: vp(vNum(2))}, {length: vp(vStr("0"))},
+		{elems: nums(7, 1), length: vp(vNum(2)), lenGet: true}, {length: vp(vNum(0)), lenGet: true}} {
+		for _, t := range []bool{false, true} {
+			g.runHist(rc, []Op{{kind: 'c', m: 8, args: []Arg{av(vNum(1)), ao(1, 0, t)}}}, "family-conversion-order")
+			g.runHist(rc, []Op{{kind: 'c', m: 9, args: []Arg{av(vNum(1)), ao(1, 1, t)}}}, "family-conversion-order")
+			g.runHist(rc, []Op{{kind: 'c', m: 0, args: []Arg{ao(1, 7, t)}}}, "family-conversion-order")
+			g.runHist(rc, []Op{{kind: 'c', m: 5, args: []Arg{ao(1, 0, t), ao(2, 2, false)}}, {kind: 'c', m: 5, args: []Arg{ao(3, 1, false), ao(4, 9, t)}}}, "family-conversion-order")
+			if !rc.lenGet {
+				g.runHist(rc, []Op{{kind: 'c', m: 6, args: []Arg{ao(1, 0, t), ao(2, 1, false), av(vNum(5))}}, {kind: 'c', m: 6, args: []Arg{ao(3, 1, false), ao(4, 0, t)}}}, "family-conversion-order")
+			}
+		}
+		if rc.lenGet {
+			continue
+		}
+		g.runHist(rc, []Op{{kind: 'c', m: 8, args: []Arg{av(vNum(1)), ao(1, -1, false), ao(2, 0, true)}}, {kind: 'c', m: 9, args: []Arg{av(vNum(2)), ao(3, -5, false)}},
+			{kind: 'c', m: 18, args: []Arg{ao(4, 0, true)}}, {kind: 'c', m: 1, args: []Arg{ao(5, 0, true)}}}, "family-conversion-order")
 	}
 	// (4) definitions and stores past the end of hardened arrays (15.4.5.1 step 4: the element first, then length)
 	for _, h := range []Op{{kind: 'e'}, {kind: 'l'}, {kind: 'f'}, {kind: 'p', k: kName("length"), d: Desc{w: bp(false)}}} {
@@ -861,6 +898,10 @@ func (g *gen) pinned() {
 	g.runHist(arr(nums(1, 2)), []Op{{kind: 'c', m: 18, args: []Arg{av(vStr("-"))}}}, "pinned")
 	// 13 (fixed c7552c5) reverse Gets both values before the presence tests: a getter that truncates the receiver
 	g.runHist(Recv{arr: true, elems: []*V{vp(vNum(3)), vp(vStr("x"))}, getters: map[int]Getter{1: {id: 32, p: 8, fx: 4}}}, []Op{{kind: 'c', m: 3}}, "pinned")
+	// 14 (open) lastIndexOf converts fromIndex before the empty-receiver exit
+	g.runHist(arr(nil), []Op{{kind: 'c', m: 9, args: []Arg{av(vNum(1)), {kind: 'o', oid: 1, op: 0, othrow: true}}}}, "pinned")
+	// 15 (open) join converts the separator before it reads length
+	g.runHist(Recv{elems: nums(7), length: vp(vNum(1)), lenGet: true}, []Op{{kind: 'c', m: 0, args: []Arg{{kind: 'o', oid: 1, op: 1}}}}, "pinned")
 	// 12 (fixed fcc8076) the callback methods read length before the IsCallable test: all seven, every run
 	for m := 10; m <= 16; m++ {
 		g.runHist(Recv{elems: []*V{vp(vStr("a")), nil, vp(vStr("b"))}, length: vp(vNum(3)), lenGet: true},
